@@ -265,6 +265,55 @@ impl BackendState {
                     Err(EffectError::InvalidArgument("file not open".into()))
                 }
             }
+            // minimal in-memory TCP: a listener is a resource; every accept yields a fresh
+            // socket resource at once; sockets echo what was written
+            NativeEffect::TcpListen { port, .. } => {
+                let rid = self.next_resource;
+                self.next_resource += 1;
+                self.open.insert(rid, format!("listener:{}", port));
+                self.log.push(BackendLog::Created { pid, resource: rid });
+                Ok((self.resource_value(rid, "TcpListener"), vec![]))
+            }
+            NativeEffect::TcpListenerAccept { resource_id } => {
+                if !self.open.contains_key(resource_id) {
+                    return Err(EffectError::InvalidArgument("listener not open".into()));
+                }
+                let rid = self.next_resource;
+                self.next_resource += 1;
+                self.open.insert(rid, format!("socket-of:{}", resource_id));
+                self.log.push(BackendLog::Created { pid, resource: rid });
+                Ok((self.resource_value(rid, "TcpSocket"), vec![]))
+            }
+            NativeEffect::TcpSocketWrite { resource_id, data } => {
+                if self.open.contains_key(resource_id) {
+                    Ok((Value::Integer(data.len().into()), vec![]))
+                } else {
+                    Err(EffectError::InvalidArgument("socket not open".into()))
+                }
+            }
+            NativeEffect::TcpSocketRead { resource_id, .. } => {
+                if self.open.contains_key(resource_id) {
+                    Ok((
+                        Value::Binary(quiver_core::value::Binary::Heap(0)),
+                        vec![vec![0x68, 0x69]],
+                    ))
+                } else {
+                    Err(EffectError::InvalidArgument("socket not open".into()))
+                }
+            }
+            NativeEffect::TcpSocketClose { resource_id } | NativeEffect::TcpListenerClose { resource_id } => {
+                let was_open = self.open.remove(resource_id).is_some();
+                self.log.push(BackendLog::Close {
+                    resource: *resource_id,
+                    was_open,
+                    via_effect: true,
+                });
+                if was_open {
+                    Ok((Value::ok(), vec![]))
+                } else {
+                    Err(EffectError::InvalidArgument("not open".into()))
+                }
+            }
             other => Err(EffectError::Other(format!(
                 "effect not modelled by the simulator backend: {:?}",
                 other
@@ -432,6 +481,7 @@ pub fn builtin_registry(io: bool) -> quiver_core::builtins::BuiltinRegistry<E> {
     );
     if io {
         quiver_io::attach_file_builtins(&mut builtins);
+        quiver_io::attach_network_builtins(&mut builtins);
     }
     builtins
 }
